@@ -752,6 +752,51 @@ def rule_removal_helpers(ctx, R):
                 ctx.violation(R, f.short, "shape=%s" % shape,
                               "%s is called %d time(s), expected %d" % (
                                   call, n_calls, want))
+    # _remove_field_backreferences: one call per reference field, also when
+    # two fields hold the same line (a self-link, a segment contained in
+    # itself): the keys a referenced line clears can depend on the field
+    # (Segment._backreference_keys for C lines), so a field skipped because
+    # "that line was done already" leaves a stale back-reference
+    f_rfb = ctx.anchor("Line._remove_field_backreferences",
+                       Line.find_method("_remove_field_backreferences"))
+    for c in record_classes(repo):
+        t = record_table(repo, c)
+        fields = list(t.REFERENCE_FIELDS or [])
+        if t.RECORD_TYPE is None or len(fields) < 2:
+            continue
+        for same in (True, False):
+            ctx.instance(R)
+            shared = seg("a")
+            vals = {}
+            for i, fld in enumerate(fields):
+                tgt = shared if same else seg("s%d" % i)
+                dt = t.DATATYPE.get(fld, "")
+                if "list" in dt:
+                    vals[fld] = [tgt]
+                elif dt.startswith("oriented"):
+                    vals[fld] = ol(tgt)
+                else:
+                    vals[fld] = tgt
+            ln = Abs(c, label="line", **vals)
+            ln.attrs["_data"] = dict(vals)
+
+            class BH(SeqHooks):
+                def method(self, ev, base, name, args, kwargs, node):
+                    if name == "get" and isinstance(base, Abs) and \
+                            base.label == "line":
+                        return base.attrs["_data"].get(args[0])
+                    return super().method(ev, base, name, args, kwargs, node)
+            out = eval_function(repo, f_rfb, [ln],
+                                hooks=BH(repo, ["_remove_backreference"]))
+            got = [e[2] for e in out[2] if e[0] == "_remove_backreference"]
+            ok = out[0] == "return" and sorted(got) == sorted(fields)
+            ctx.oblige(ok)
+            if not ok:
+                ctx.violation(R, f_rfb.short, "class=%s,%s" % (
+                    short_cls(c), "all fields hold the same line" if same
+                    else "distinct lines"),
+                    "back-references are removed for the fields %r, "
+                    "expected one call for each of %r" % (got, fields))
     # __update_reference_in_list
     from .c12 import OvHooks
     f_ul = ctx.anchor("Line.__update_reference_in_list",
